@@ -10,14 +10,14 @@ CHECKS = {
          "Generated (source tree, destination tree, src path, dst path) with symlinks (absolute, '..'-laden, dangling, looping) to outside sentinels at every component and leaf x {follow-links, wildcards, always-replace, dir-contents, chown/utime/mode}. Held on the executions observed; known finding: lexical join in the dependency's RootPath.",
          "Trusts chroot(2), the snapshot walker and the chroot-style resolver in copyB_common.go; no concurrent modification.", "DESIGN.md §5 C14"),
  "C15": ("exploration", "runtime monitor: destination snapshot vs an executable overlay model (7 calibrated rules) incl. expected-error outcomes, obstacle preservation and a repeated copy for idempotence",
-         "Source/destination pairs over a shared 6-name universe so that every type pair collides x {dir-contents, always-replace, wildcards, trailing separator, nested not-yet-existing dst}; all 49 (src type, dst type, outcome) classes are observed. Where the statement is silent every outcome is accepted and counted. Held on the executions observed.",
+         "Source/destination pairs over a shared 8-name universe (incl. two dot-only/dot-leading names) so that every type pair collides x {dir-contents, always-replace, wildcards, trailing separator, nested not-yet-existing dst}; all 49 (src type, dst type, outcome) classes are observed. Where the statement is silent every outcome is accepted and counted. Held on the executions observed.",
          "Trusts the overlay model in c15.go (calibrated against the repository's copy tests).", "DESIGN.md §5 C15"),
  "C17": ("exploration", "runtime monitor: archive/tar reader over WriteTar's output compared member by member with the independently predicted view; independent round trip through GNU tar extraction and snapshot comparison",
          "Generated trees (as C01, names >100 bytes, non-ASCII) x {unfiltered, include, exclude, both} x {on-disk FS, synthetic FS, SubDirFS}. Views affected by K1 are not judged. Held on the executions observed.",
          "Trusts archive/tar, GNU tar 1.34 and the snapshot walker; mtime to the second.", "DESIGN.md §5 C17"),
  "C18": ("exploration", "runtime differential monitor: FollowLinks result vs an independent chroot-style resolver (40-link limit) for coverage, order, prefix-freeness and root collapse; Walk-call step bound for termination; end-to-end transfer with FollowPaths and re-resolution in the copy",
          "Link graphs (chains incl. 38-43 links, cycles, self loops, growing cycles, '..' beyond the root, dangling, absolute) x request lists (shared prefixes, wildcards, missing paths). Termination decided by a step bound on FS.Walk calls, not by time. Held on the executions observed; known finding: lexically cleaned link targets.",
-         "Trusts the reference resolver in internal/refs/resolver.go; middle-component wildcards: only termination and shape.", "DESIGN.md §5 C18"),
+         "Trusts the reference resolver in internal/refs/resolver.go; wildcard requests: result shape, termination, and end-to-end presence of every match reached through real directories only.", "DESIGN.md §5 C18"),
  "C20": ("exploration", "runtime monitor: value round trips across the hand-optimised codec and the generic protobuf runtime in both directions, framing through util.NewProtoStream with fragmenting readers, aliasing monitor (read buffers poisoned after each RecvMsg), panic capture and allocation accounting (runtime.MemStats) on arbitrary inputs; Go native fuzz targets as an extra workload generator",
          "Generated and mutated Stat/Packet values, packet sequences read back under 60 fragmentations incl. 1-byte reads, empty and >32 KiB packets, cut streams, arbitrary byte strings and frame streams (incl. a 4 GiB announcement in a memory-limited sub-process). Held on the executions observed; known finding: invalid UTF-8 names are rejected by the generic runtime.",
          "Trusts the independent field-wise comparator and reference framer in internal/codec; allocation measured single-threaded per child with repeat-and-minimum to damp GC noise.", "DESIGN.md §5 C20"),
@@ -29,12 +29,12 @@ CHECKS = {
          "Trusts chroot(2) and the snapshot walker; single attacker (the peer), no concurrent local attacker; receiver crash counts as a failed call.", "DESIGN.md §5 C03, §4.6"),
  "C04": ("fault_enumeration", "fault injection at every operation index of a fixed transfer + structural quiescence detector (goroutine stack sampling) for termination and leaks + C01 oracle for false success + follow-up clean transfer; SIGKILL of a receiver process over real pipes",
          "For a fixed 12-entry transfer every operation index of every fault class is enumerated (stream send/recv error and EOF on both endpoints, cancellation of either context, walk error, read error at 5 offsets, hasher/notify error, SIGKILL of the receiver after k packets), plus sampled faults with >132 requests pending. Termination is decided structurally (teardown once, quiescence afterwards = violation), never by a timer. Held on the fault runs observed; plans whose operation was never reached are reported as not fired.",
-         "fsutil uses no timers (a quiescent process cannot progress on its own); teardown = both directions fail + both contexts cancelled; Open errors and receiver-side disk errors are not injected.", "DESIGN.md §5 C04, §4.7"),
+         "fsutil uses no timers (a quiescent process cannot progress on its own); teardown = both directions fail, and - in one of the two runs of every plan - both contexts cancelled (the other run keeps the contexts alive and uses a transport that ignores them); Open errors and receiver-side disk errors are not injected.", "DESIGN.md §5 C04, §4.7"),
  "C06": ("exploration", "online protocol monitor: an independent reference receiver (written from the protocol text) drives the real Send with request scripts and checks every emitted packet; progress callbacks recorded",
          "Source views x request scripts (any subset/order, bursts >132, requests racing the STAT stream, duplicate/unknown/non-file ids) x stream capacities and delays; STAT sequence compared with the independent snapshot, DATA reassembled per id and compared with the file bytes. Held on the sessions observed.",
          "Trusts the reference receiver (refrecv.go) to be conforming; ids are zero-based STAT positions per receive.go's header.", "DESIGN.md §5 C06, §4.4"),
  "C07": ("exploration", "online protocol monitor: an independent reference sender announces synthetic STAT sequences to the real Receive with seeded chunkings/interleavings; REQ/FIN ordering decided on the receiver-side event log; dest bytes read at the instant FIN arrives",
-         "STAT sequences x prior destinations x DATA chunkings (1 B .. 1 MiB) x id interleavings x STAT/DATA races x early close; REQ set compared with the identity model, final dest with the announced tree. Held on the sessions observed.",
+         "STAT sequences (incl. fan-out of 350-900 files announced before the first answer) x prior destinations x DATA chunkings (1 B .. 1 MiB) x id interleavings x STAT/DATA races x early close x receiver options {rejecting Filter, unprivileged receiver}; REQ set compared with the identity model, final dest with the announced tree. Held on the sessions observed.",
          "Trusts the reference sender (refsend.go) to be conforming; identity model as C02.", "DESIGN.md §5 C07, §4.4"),
  "C11": ("exploration", "runtime monitor: STAT stream of the real Send over filtered views validated by an independent stream validator (order, parents, link targets), transfer into an empty dest compared with the reference-filtered source with re-canonicalised link groups, every regular file opened through the view",
          "Trees with link groups straddling included/excluded paths x include/exclude/follow-path configurations x nested filter stacks (reference applied level by level). Known finding K1 triaged as in C10. Held on the executions observed.",
@@ -43,7 +43,7 @@ CHECKS = {
          "Generated source trees (all types, link groups incl. special files, special bits, owners, ns mtimes, xattrs) x {whole tree, sub-directory, single file, single symlink} x option sets {chown, octal/symbolic mode, utime, xattr error handler, follow-links}. Held on the executions observed.",
          "Trusts the snapshot walker and /bin/chmod as evaluator of symbolic modes (both GNU and POSIX readings admitted where they differ); root.", "DESIGN.md §5 C13"),
  "C16": ("exploration", "runtime differential monitor: set of paths written by fs.Copy with include/exclude patterns vs naive reference filter vs fsutil.Walk with the same patterns; metadata of on-demand ancestors compared with the source directory",
-         "The trees and pattern grammar of C10, into empty and populated destinations; K1 triaged as in C10. Held on the executions observed.",
+         "The trees and pattern grammar of C10, into empty and populated destinations (incl. type-conflicting obstacles at unselected paths, with and without always-replace); K1 triaged as in C10. Held on the executions observed.",
          "Reference filter as C10.", "DESIGN.md §5 C16"),
  "C19": ("exploration", "runtime monitor: listing file decoded as little-endian length-prefixed records and compared with the STATs seen on the wire; dest minus listing compared with the projection of the source; REQ ids and notifications checked",
          "Trees (incl. listings of several 32 KiB chunks and a single stat larger than a chunk) x selectors x sources containing an entry named .fsutil-metadata x prior destinations holding a listing file/symlink/directory. Held on the executions observed.",
@@ -52,7 +52,7 @@ CHECKS = {
          "Thousands of generated (source tree, prior destination, configuration) cases incl. unprivileged receiver, synthetic source, merge mode, dirty destinations; a violation is any demanded field that differs after both calls returned nil. Held on the executions observed.",
          "Trusts the independent snapshot walker (x/sys/unix) and the expectation models in c01.go; Linux, root, tmpfs/ext4 with mknod+xattrs; unprivileged receiver emulated by switching euid/egid.", "DESIGN.md §5 C01"),
  "C02": ("exploration", "runtime monitor over edit histories: REQ ids from the packet log mapped through the STAT sequence and compared with the identity model; inode/bytes of untouched entries compared before/after",
-         "Generated edit histories (incl. single-field edits, unchanged re-syncs, DiffNone rounds); requests must equal the set the identity model computes, untouched entries keep their inode and bytes, an unchanged re-sync sends no request and no notification. Held on the executions observed.",
+         "Generated edit histories (incl. single-field edits, unchanged re-syncs, DiffNone rounds, a non-idempotent rewriting Filter); requests must equal the set the identity model computes, untouched entries keep their inode and bytes, an unchanged re-sync sends no request and no notification. Held on the executions observed.",
          "Trusts the identity model (identityEqual/changedSet in the harness) incl. the encoded hard-link timing exception; root.", "DESIGN.md §5 C02"),
  "C05": ("exploration", "runtime monitor: every NotifyHashed call recorded and checked against a notification model (apply events to old snapshot == new snapshot; exactly-once per changed path; no unchanged path; deletes == top-most removed paths; digests recomputed from the stat on the wire and the bytes in dest)",
          "Generated edit histories incl. pure directory metadata edits, adjacent deleted directories, subtree deletions, type swaps, out-of-order content completion. Held on the executions observed.",
